@@ -75,6 +75,9 @@ class Spec:
     # the value of the translated part when control reaches the end of the (sliced) body without a `return`: a Lean expression
     # over the locals (for slices of a function that go on to use what they computed)
     tail_result: str = ""
+    # `try: <one assignment>  except <E>: raise <X>(...)`: assignment text -> Lean condition under which evaluating it raises <E>;
+    # the translation is `if <cond> then Except.error "<X>" else let … := …` (only in `except` mode)
+    try_raises: dict[str, str] = field(default_factory=dict)
 
 
 def apply_stmt_rewrites(fn: ast.FunctionDef, spec: "Spec") -> ast.FunctionDef:
@@ -409,6 +412,16 @@ class Tr:
             return f'(Except.error "{name}")'
         if isinstance(st, ast.With):
             return self.block(list(st.body) + rest, depth, tail=tail)
+        if isinstance(st, ast.Try):
+            ok_shape = (len(st.body) == 1 and isinstance(st.body[0], ast.Assign) and len(st.handlers) == 1 and not st.orelse and not st.finalbody
+                        and len(st.handlers[0].body) == 1 and isinstance(st.handlers[0].body[0], ast.Raise) and st.handlers[0].body[0].exc is not None)
+            key = ast.unparse(st.body[0]) if ok_shape else ""
+            if not ok_shape or key not in self.s.try_raises or self.s.kind != "except":
+                raise Untranslatable(f"{self.s.qualname}: try statement {ast.unparse(st).splitlines()[1].strip()!r}")
+            exc = st.handlers[0].body[0].exc
+            name = ast.unparse(exc.func) if isinstance(exc, ast.Call) else ast.unparse(exc)
+            return (f'(if {self.s.try_raises[key]} then (Except.error "{name}") else\n{ind}'
+                    f"{self.block([st.body[0]] + rest, depth, tail=tail)})")
         if isinstance(st, ast.If):
             t = ast.unparse(st.test)
             if t in self.s.variants:
